@@ -95,6 +95,8 @@ func c19readFromErr(err error) int {
 			return 2
 		case errors.As(pe.Err, &ne):
 			return 3
+		case pe.Err != nil && pe.Err.Error() == "invalid record geometry":
+			return 5
 		}
 		return 4 // quoting
 	}
